@@ -32,6 +32,8 @@ RULE = ('case = machine join: (hashjoin | hashleftjoin | hashrightjoin | '
         'across two calls, against a dict model. Non-trivial: both tables '
         'have a data row (join) or the table has one (lookup). Distinct: by '
         'digest of the whole case.')
+STATES = ('join kind x cache flag x source-failure armed x build side '
+          'edited, or lookup function x strict x dictionary reused')
 COMPONENTS = {
     'real': ['petl hash joins, merge joins (as the second implementation), '
              'lookup functions'],
@@ -521,8 +523,16 @@ def run_case(case):
                        digest=log.hexdigest())
     finally:
         gc.collect()
+    if case['machine'] == 'join':
+        st = 'join:%s:cache=%s:armed=%s:edit=%s' % (
+            case['kind'], case['cache'],
+            any(op[0] == 'ARM' for op in case['steps']),
+            bool(case.get('edit')))
+    else:
+        st = 'lookup:%s:strict=%s:reuse=%s' % (case['fn'], case['strict'],
+                                               case['reuse_dict'])
     return outcome('ok', digest=log.hexdigest(), probes=probes, steps=steps,
-                   nontrivial=nontrivial,
+                   nontrivial=nontrivial, states=[st],
                    extra={'group': case.get('kind') or case.get('fn')})
 
 
